@@ -1,6 +1,7 @@
 package props
 
 import (
+	"bytes"
 	"fmt"
 
 	"fgverif/gen"
@@ -95,6 +96,9 @@ func c01Case(tier string, i int, r *gen.Rand) (s Setting, d gen.Data, ops []gen.
 			max = 150000
 		}
 		d = gen.RandomData(r, max)
+		if s.Dict != nil && r.Bool() {
+			d = gen.Data{Desc: fmt.Sprintf("dict-slices/%d", len(d.B)), B: dictSlices(r, s.Dict, len(d.B))}
+		}
 		style := gen.PartitionStyles[r.Intn(4)]
 		if len(d.B) <= 20000 && r.Chance(1, 8) {
 			style = "bytes"
@@ -161,13 +165,17 @@ func c01Case(tier string, i int, r *gen.Rand) (s Setting, d gen.Data, ops []gen.
 // corner of its own. The compressed size per input byte is measured on a probe,
 // then 120 consecutive input sizes around the predicted chunk boundary are
 // round-tripped.
-func (c01) chunkSweep(c *mon.Ctx, i int) {
+func (p c01) chunkSweep(c *mon.Ctx, i int) {
 	r := c.R
 	l := c01Lay(c.Tier)
 	k := i - (l.core + l.random + l.sweepSmall + l.sweepRoll + l.tokenCap)
 	s := accelSettings[k%8]
 	fam := []string{"uniform", "alpha16", "text", "nearuniform"}[(k/8)%4]
 	mult := (k/32)%3 + 1
+	if k%5 == 4 {
+		p.rareTail(c, s)
+		return
+	}
 	data := gen.Make(r, fam, 70000).B
 	probe, err := emit(c.API, s, data[:20000], []gen.Op{{Kind: "write", N: 20000}, {Kind: "close"}})
 	if err != nil || len(probe) == 0 {
@@ -207,6 +215,55 @@ func (c01) chunkSweep(c *mon.Ctx, i int) {
 			c.Count("outputs-within-40-bytes-of-a-chunk-boundary", 1)
 		}
 		c.Nontrivial(s.String(), data[:total], n)
+	}
+}
+
+// rareTail: steeply skewed data (the rarest symbols get 14/15-bit codes) ending
+// in three of the rarest symbols, at 48 consecutive lengths so that the bit
+// phase at the end of the block takes every value: the last literals and the
+// end-of-block code are as long as codes get.
+func (c01) rareTail(c *mon.Ctx, s Setting) {
+	r := c.R
+	// halving frequencies: symbol i occurs 2^(top-i) times, shuffled; the chain of
+	// codes reaches the 15-bit limit. The terminator is three symbols that occur
+	// nowhere else.
+	top := r.Range(13, 15)
+	perm := r.Perm(256)
+	var base []byte
+	for i := 0; i <= top; i++ {
+		for k := 0; k < 1<<uint(top-i); k++ {
+			base = append(base, byte(perm[i]))
+		}
+	}
+	for i := len(base) - 1; i > 0; i-- {
+		k := r.Intn(i + 1)
+		base[i], base[k] = base[k], base[i]
+	}
+	rare := []byte{byte(perm[200]), byte(perm[201]), byte(perm[202])}
+	// pad bytes in front (the most frequent symbol: a 1-bit code) shift the bit
+	// phase at the end of the block through every value
+	padded := append(bytes.Repeat([]byte{byte(perm[0])}, 48), base...)
+	base = padded
+	for pad := 0; pad < 48; pad++ {
+		data := append(append([]byte(nil), base[pad:]...), rare...)
+		withFlush := pad%2 == 1
+		ops := []gen.Op{{Kind: "write", N: len(data)}, {Kind: "close"}}
+		if withFlush {
+			ops = []gen.Op{{Kind: "write", N: len(data)}, {Kind: "flush"}, {Kind: "close"}}
+		}
+		out, err := emit(c.API, s, data, ops)
+		c.Eval(1)
+		if err != nil {
+			continue
+		}
+		if sig, what, _ := DecodeChecks(c.API, out, data, nil); sig != "" {
+			desc := map[string]interface{}{"setting": s.String(), "data": fmt.Sprintf("halving-frequencies(top=%d)[%d:]+3 unique symbols", top, pad), "ops": gen.OpsString(ops), "kind": "rare-tail-sweep", "data_hex_tail": mon.Hex(data[len(data)-8:], 8), "data_sha": mon.Sha(data)}
+			c.Violate(fmt.Sprintf("%s|huffonly=%v|flush=%v", sig, s.Level == -2, withFlush), fmt.Sprintf("%s, skewed data ending in its three rarest symbols, length %d, ops [%s]: %s", s, len(data), gen.OpsString(ops), what), desc)
+			return
+		}
+		c.Count("streams-checked", 1)
+		c.Count("kind-rare-tail-sweep", 1)
+		c.Nontrivial(s.String(), data)
 	}
 }
 
